@@ -76,7 +76,7 @@ def gen_cases(tier, seed):
     yield {'family': 'json_package', 'op': 'load_json_package', 'idx': 8600, 'seed': seed}
     # file sources whose look-ahead is a matter of BYTES held in memory before the first row is delivered: a text file in a
     # legacy encoding (larger than the 1 MiB the encoding probe samples), a GeoJSON file
-    for i, kind_ in enumerate(['legacy_encoding_csv', 'geojson']):
+    for i, kind_ in enumerate(['legacy_encoding_csv', 'geojson', 'sql_table', 'xlsx']):
         yield {'family': 'file_source_memory', 'op': 'load_' + kind_, 'kind': kind_, 'idx': 8700 + i, 'seed': seed}
     # a step that finishes its resource on its own (dumper, printer, stream) in front of a concatenate of several resources
     for i, obs in enumerate(['dump_to_path', 'printer', 'stream', 'validate']):
@@ -222,7 +222,8 @@ def run_file_memory(case, rng, d, counters, cov, viol):
     import json as json_
     import tracemalloc
     kind = case['kind']
-    sizes = [25000, 100000] if kind == 'legacy_encoding_csv' else [1500, 6000]
+    sizes = {'legacy_encoding_csv': [25000, 100000], 'geojson': [1500, 6000], 'sql_table': [15000, 60000],
+             'xlsx': [2000, 8000]}[kind]
     peaks, fsizes, positions = [], [], []
     for N in [50] + sizes:          # (the first, tiny file only warms up imports and caches: not measured)
         if kind == 'legacy_encoding_csv':
@@ -234,6 +235,23 @@ def run_file_memory(case, rng, d, counters, cov, viol):
                 f.write('id,address,note\n')
                 for i in range(N):
                     f.write('%d,"%s","%s"\n' % (BASE + i, words[i % 4], words[(i + 1) % 4]))
+        elif kind == 'sql_table':
+            import sqlite3
+            path = os.path.abspath('src_%d.db' % N)
+            con = sqlite3.connect(path)
+            con.execute('create table t (id integer, s text, note text)')
+            con.executemany('insert into t values (?, ?, ?)', ((BASE + i, 'v%d' % (i % 5), 'note %d for the row' % i) for i in range(N)))
+            con.commit()
+            con.close()
+        elif kind == 'xlsx':
+            import openpyxl
+            path = 'book_%d.xlsx' % N
+            wb = openpyxl.Workbook(write_only=True)
+            ws = wb.create_sheet()
+            ws.append(['id', 's', 'note'])
+            for i in range(N):
+                ws.append([BASE + i, 'v%d' % (i % 5), 'note %d for the row' % i])
+            wb.save(path)
         else:
             path = 'features_%d.geojson' % N
             with open(path, 'w') as f:
@@ -271,7 +289,8 @@ def run_file_memory(case, rng, d, counters, cov, viol):
             tracemalloc.start()
         try:
             with boot.quiet():
-                d.Flow(d.load(path), first_row).process()
+                src_ = d.load('sqlite:///' + path, table='t') if kind == 'sql_table' else d.load(path)
+                d.Flow(src_, first_row).process()
         except Exception as e:
             if not isinstance(getattr(e, 'cause', e), _Enough):
                 if kind != 'geojson':
@@ -300,6 +319,13 @@ def run_file_memory(case, rng, d, counters, cov, viol):
             viol.append({'kind': 'lookahead_grows', 'mech': 'grows/%s' % label, 'program': prog,
                          'msg': 'when the first row is delivered %d of the %d bytes of the file have been read (%d of %d for the '
                          'smaller file); %r' % (read[1], fsizes[1], read[0], fsizes[0], prog)})
+    elif kind in ('sql_table', 'xlsx'):
+        # rows, not bytes, measure these sources: what is held before the first row must not grow by the rows added
+        grew = peaks[1] - peaks[0]
+        if grew > 2 * 2 ** 20 and grew > 50 * (sizes[1] - sizes[0]):
+            viol.append({'kind': 'lookahead_grows', 'mech': 'grows/%s' % label, 'program': prog,
+                         'msg': 'memory held before the first row is delivered grows with the source: %d KiB for %d rows, %d KiB for '
+                         '%d rows; %r' % (peaks[0] // 1024, sizes[0], peaks[1] // 1024, sizes[1], prog)})
     elif fsizes[1] - fsizes[0] > 200 * 1024 and peaks[1] - peaks[0] > (fsizes[1] - fsizes[0]) // 2:
         viol.append({'kind': 'lookahead_grows', 'mech': 'grows/%s' % label, 'program': prog,
                      'msg': 'memory held before the first row is delivered grows with the file: %d KiB for a %d KiB file, %d KiB '
